@@ -312,6 +312,8 @@ def gen_cases(tier, seed):
         t = {'kind': 'download', 'dst': rng.choice(['nonseekable', 'nonseekable', 'fifo', 'fifo']), 'size': size}
         if t['dst'] == 'nonseekable' and rng.random() < 0.5:
             t['flavor'] = 'declared'  # says seekable() is False although seek() / tell() exist
+        if t['dst'] == 'nonseekable' and rng.random() < 0.4:
+            t['write_ret'] = rng.choice(['none', 'half', 'zero', 'true'])  # write() takes everything but returns something else than len(data)
         if t['dst'] == 'fifo' and rng.random() < 0.5:
             t['symlink'] = True
         cfg = dict(multipart_threshold=T, multipart_chunksize=C, io_chunksize=rng.choice([1, 3, C]), max_request_concurrency=rng.choice([1, 2, 3]),
